@@ -735,6 +735,11 @@ class C09(common.Prop):
         for i in range(n):
             op = ops[i % len(ops)] if i < 4 * len(ops) else None      # every operation is exercised early
             yield gen_case(rng, tier, op=op)
+        # LARGE PyTorch tensors (2^24 / 2^25 coordinates, a long recording) with a single missing point holding junk: a shortcut that
+        # decides "nothing is missing" from a float32 statistic of the mask cannot see one element in 16 or 33 million (oracle only)
+        for n in (2 ** 24 + 5, 2 ** 25 + 5):
+            yield {"op": "zero_filled", "backend": "torch", "large": n, "shape": [1, 1, 1, 1], "conf": [0],
+                   "fills": [{"kind": "finite", "words": []}, {"kind": "nan", "words": []}]}
         if tier == "thorough":
             # small scope, exhaustively: every missing pattern of a 2-frame, 1-person, 2-point pose, every body operation x backend
             for op in ops:
@@ -759,12 +764,39 @@ class C09(common.Prop):
         return any(f32(c) == 0 for c in case["conf"])
 
     # ---- implementation: one run per filling
+    def run_large(self, case):
+        self.impl.need("torch")
+        torch = self.impl.torch
+        from pose_format.torch.masked.tensor import MaskedTensor
+        outs = []
+        for f in case["fills"]:
+            n, at = case["large"], 7
+            t = torch.ones(n, dtype=torch.float32)
+            t[at] = 12345.0 if f["kind"] == "finite" else float("nan")
+            m = torch.ones(n, dtype=torch.bool)
+            m[at] = False
+            try:
+                z = MaskedTensor(t, m).zero_filled()
+                got = float(z[at])
+                ok = got == 0.0 and float(z[at + 1]) == 1.0 and float(z[0]) == 1.0 and tuple(z.shape) == (n,)
+                outs.append({"extra": {"zero_exact": bool(ok), "stored_at_missing": repr(got)}, "n": n})
+            except Exception as e:
+                outs.append({"error": type(e).__name__, "extra": {}})
+            del t, m
+        return outs
+
     def run_impl(self, case):
+        if case.get("large"):
+            outs = self.run_large(case)
+            case["_impl"] = outs
+            return [strip(o) for o in outs]
         outs = [self.impl.run(case, f) for f in case["fills"]]
         case["_impl"] = outs
         return [strip(o) for o in outs]
 
     def run_model(self, case, runner):
+        if case.get("large"):
+            return None
         outs = []
         for f, io in zip(case["fills"], case["_impl"]):
             req = model_request(case, f, io)
